@@ -16,7 +16,7 @@ use crate::txobs::{rfc_pto, RxInfo, TxObs};
 use crate::workload::*;
 use crate::Rng;
 
-pub const PATHV_RULE: &str = "one execution = handshake + transfer in both directions (half of the executions over IPv4, so that a port-only change takes the NAT-rebinding branch); after the handshake is confirmed, at random steps: the client's address changes (port only / other IP, with or without local_address_changed(), up to 3 times, possibly overlapping); an attacker replays recent or old genuine client datagrams from third addresses; single FRESH client datagrams arrive from a third address instead of (or ahead of) the client's (a spoofed migration the attacker cannot validate); the client goes offline for 4..8 s while one captured fresh datagram is delivered from a third address (validation fails, only the timer can bring the server back); the client emits a probing-only packet (PATH_CHALLENGE + PADDING, hook verif_inject_frames) that arrives from a third address or from its next address; the client emits PATH_RESPONSE frames with tokens nobody sent; migration enabled (3/4) or disabled; lossy network. Oracles, all computed in the harness from the sender's plaintext log (frames + packet number of every datagram) and the datagrams' source addresses: `path-migrated-without-trigger` the server's path changes only when it handles a packet from another address that is non-probing and carries a number above every non-probing number handled before (RFC 9000 9.3; the most permissive reading), `path-not-migrated-on-trigger` and it does change when that packet's number is above EVERY number handled before (the strictest reading); `path-validated-without-matching-response` an unvalidated path becomes validated only while handling a packet that carries a PATH_RESPONSE whose token the server sent in a PATH_CHALLENGE to that address; `path-validation-deadline-not-3pto` the validation timer armed by a migration is 3 x max(PTO of the new path, PTO of the old path) after the migration (after the first PATH_CHALLENGE to the new address, if that is sent later), PTO = smoothed_rtt + max(4 rttvar, 1 ms) + max_ack_delay computed by the harness from the RTT samples in the snapshot (RFC 9002 6.2.1); `path-returned-late` every unvalidated path is validated or left no later than that deadline (virtual time, timers serviced exactly when due: no slack); `path-cid-not-changed-on-migration` a client told of its address change, and a server following a peer that changed its destination CID, use a connection ID never used towards/from another address when the peer has supplied an unused one (RFC 9000 9.5); `path-client-changed-its-path`, `path-server-migrated-although-disabled`, `migration-not-followed` (server ends on the client's address, validated), `migration-connection-lost`, workload completion, and the anti-amplification oracle of C07 on every unvalidated path. Every observed server transition is also replayed through the Lean path machine with the harness-derived trigger bit, token match and PTOs (`pathm`). Non-trivial = at least one address change, replay or rerouted datagram happened after the handshake";
+pub const PATHV_RULE: &str = "one execution = handshake + transfer in both directions (half of the executions over IPv4, so that a port-only change takes the NAT-rebinding branch); after the handshake is confirmed, at random steps: the client's address changes (port only / other IP, with or without local_address_changed(), up to 3 times, possibly overlapping); an attacker replays recent or old genuine client datagrams from third addresses; single FRESH client datagrams arrive from a third address instead of (or ahead of) the client's (a spoofed migration the attacker cannot validate); the client goes offline for 4..8 s while one captured fresh datagram is delivered from a third address (validation fails, only the timer can bring the server back); the client emits a probing-only packet (PATH_CHALLENGE + PADDING, hook verif_inject_frames) that arrives from a third address or from its next address; the client emits PATH_RESPONSE frames with tokens nobody sent; migration enabled (3/4) or disabled; lossy network. Oracles, all computed in the harness from the sender's plaintext log (frames + packet number of every datagram) and the datagrams' source addresses: `path-migrated-without-trigger` the server's path changes only when it handles a packet from another address that is non-probing and carries a number above every non-probing number handled before (RFC 9000 9.3; the most permissive reading), `path-not-migrated-on-trigger` and it does change when that packet's number is above EVERY number handled before (the strictest reading); `path-validated-without-matching-response` an unvalidated path becomes validated only while handling a packet that carries a PATH_RESPONSE whose token the server sent in a PATH_CHALLENGE to that address; `path-validation-deadline-not-3pto` the validation timer armed by a migration is 3 x max(PTO of the new path, PTO of the old path) after the migration (after the first PATH_CHALLENGE to the new address, if that is sent later), PTO = smoothed_rtt + max(4 rttvar, 1 ms) + max_ack_delay computed by the harness from the RTT samples in the snapshot (RFC 9002 6.2.1); `path-returned-late` every unvalidated path is validated or left no later than that deadline (virtual time, timers serviced exactly when due: no slack); `path-cid-not-changed-on-migration` a client told of its address change, and a server following a peer that changed its destination CID, use a connection ID never used towards/from another address when the peer has supplied an unused one (RFC 9000 9.5); `path-client-changed-its-path`, `path-server-migrated-although-disabled`, `migration-not-followed` (server ends on the client's address, validated), `migration-connection-lost`, workload completion, and the anti-amplification oracle of C07 on every unvalidated path; C12 on every snapshot of both peers (module `inflight`): `in-flight-bytes-unaccounted` for the current and the remembered previous path object, the bytes / ack-eliciting packets it counts in flight equal the sizes / number of its unresolved packets (sent on that path generation, neither acknowledged nor lost nor abandoned) judged by the frames the harness saw them built with (RFC 9002 2: ack-eliciting = any frame but ACK, PADDING, CONNECTION_CLOSE; in flight = ack-eliciting or padded), `in-flight-ack-eliciting-without-loss-timer` and while such an ack-eliciting packet is unresolved on the current path of a confirmed connection the loss-detection timer is armed, unless the path is unvalidated and at its 3x limit (RFC 9002 A.8). Every observed server transition is also replayed through the Lean path machine with the harness-derived trigger bit, token match and PTOs (`pathm`). Non-trivial = at least one address change, replay or rerouted datagram happened after the handshake";
 
 #[derive(Clone, Debug)]
 struct Epoch {
@@ -73,6 +73,8 @@ struct PathObs {
     offline_until: u64,
     cnt: BTreeMap<&'static str, u64>,
     mad: Duration,
+    /// C12 ledger oracle (`in-flight-bytes-unaccounted`): every snapshot, both peers, current and previous path
+    inflight: crate::inflight::InFlightObs,
 }
 
 impl PathObs {
@@ -190,6 +192,7 @@ pub fn pathv(seed: u64, out: &mut Outcome) {
         cnt: BTreeMap::new(),
         // no ACK_FREQUENCY configuration in this scenario: max_ack_delay is the transport parameter's default
         mad: Duration::from_millis(25),
+        inflight: crate::inflight::InFlightObs::new(),
     }));
 
     // the simulator's amplification oracle is armed by the implementation's `path.validated` flag: a connection that
@@ -223,6 +226,9 @@ pub fn pathv(seed: u64, out: &mut Outcome) {
                 off += len;
             }
         }
+        // C12: what was just built (read without consuming), then the in-flight ledger on the state after this transmit
+        o.inflight.on_tx(sim, node, ch);
+        o.inflight.check(sim, node, ch);
         let idx = o.tx.on_tx(sim, node, ch, t, buf);
         let src = sim.nodes[node].addr;
         let first = idx.first().copied().unwrap_or(0);
@@ -314,6 +320,7 @@ pub fn pathv(seed: u64, out: &mut Outcome) {
             o.cur = info.map(|i| (i, sim.snap(node, ch)));
             return;
         }
+        o.inflight.check(sim, node, ch);
         let Some((info, b)) = o.cur.take() else { return };
         let a = sim.snap(node, ch);
         let now = sim.now;
@@ -595,6 +602,12 @@ pub fn pathv(seed: u64, out: &mut Outcome) {
         }
         // ---- oracles evaluated continuously
         if let Some(sch) = w.ch[SERVER] {
+            // C12 in-flight ledger after whatever happened in this step (timers included)
+            {
+                let mut o = obs.borrow_mut();
+                o.inflight.check(sim, CLIENT, cch);
+                o.inflight.check(sim, SERVER, sch);
+            }
             let ss = sim.snap(SERVER, sch);
             let cs = sim.snap(CLIENT, cch);
             if cs.path.remote != sim.nodes[SERVER].addr {
@@ -711,6 +724,9 @@ pub fn pathv(seed: u64, out: &mut Outcome) {
     for (k, v) in &o.cnt {
         out.count(k, *v);
     }
+    for (k, v) in o.inflight.counters() {
+        out.count(k, v);
+    }
     if out.samples.len() < 3 {
         out.samples.push(format!("seed {seed}: migration_enabled {migration_enabled}, ipv4 {v4}, moves {moved}, replays {replays}, counters {:?}, client addresses {:?}, end {end:?} at {} ms", o.cnt, genuine_client_addrs.borrow(), sim.now / 1_000_000));
     }
@@ -721,7 +737,7 @@ pub fn pathv(seed: u64, out: &mut Outcome) {
         }
         if all {
             for r in &o.tx.recs {
-                eprintln!("tx n{} t={} -> {} dcid {} {:?}", r.node, r.at, r.dst, r.dcid, r.pkts.iter().map(|p| format!("{}:{} {}", p.space, p.pn, p.line.chars().take(100).collect::<String>())).collect::<Vec<_>>());
+                eprintln!("tx n{} t={} -> {} dcid {} {:?}", r.node, r.at, r.dst, r.dcid, r.pkts.iter().map(|p| format!("{}:{} {}", p.space, p.pn, p.line.chars().take(std::env::var("VERIF_PATHV_LINE").ok().and_then(|v| v.parse().ok()).unwrap_or(100)).collect::<String>())).collect::<Vec<_>>());
             }
         }
         for node in 0..2 {
